@@ -610,6 +610,8 @@ func (p c11) deviations(c *core.Ctx, k int) {
 		{"add/default", `deviation "/plain" { deviate add { default "dflt"; } }`, []string{".children.3.default", ".children.3.has-default"}, false},
 		{"add/must", `deviation "/plain" { deviate add { must "c > 3"; } }`, []string{".children.3.musts"}, false},
 		{"add/unique", `deviation "/li" { deviate add { unique "u2"; } }`, []string{".children.1.unique"}, false},
+		// two uses of one grouping, each given a unique of its own
+		{"add/unique-per-use", `deviation "/ga/gli" { deviate add { unique "k g1"; } } deviation "/gb/gli" { deviate add { unique "k g4"; } }`, []string{".children.7.children.0.unique", ".children.8.children.0.unique"}, false},
 		{"add/max-elements", `deviation "/co" { deviate add { max-elements 3; } }`, nil, true},
 		{"add/units-already-set", `deviation "/le" { deviate add { units "cm"; } }`, nil, true},
 		{"delete/units", `deviation "/le" { deviate delete { units "m"; } }`, []string{".children.2.units"}, false},
@@ -758,6 +760,10 @@ func (p c11) deviations(c *core.Ctx, k int) {
 		p.want(c, d.name, with, ".children.2.type.length.0.s", "1..4")
 	case "replace/type-leaf-list":
 		p.want(c, d.name, with, ".children.4.type.format", "int8-list")
+	case "add/unique-per-use":
+		p.want(c, d.name, with, ".children.7.children.0.unique.3.0", "k")
+		p.want(c, d.name, with, ".children.7.children.0.unique.3.1", "g1")
+		p.want(c, d.name, with, ".children.8.children.0.unique.3.1", "g4")
 	case "delete/both-musts":
 		for k := range with {
 			if strings.HasPrefix(k, ".children.2.musts.") && strings.HasSuffix(k, ".expr") {
